@@ -18,7 +18,7 @@ IW = "int_vector::IntVectorWriter"
 
 META = {
     "level": "other",
-    "technique": "static analysis: header sequence agreement with the in-memory impl, typestate/must-pass-through on close, co-mutation of counters (MIR, rustc_private driver)",
+    "technique": "static analysis: header sequence agreement with the in-memory impl, typestate/must-pass-through on close, co-mutation of counters at every raw push site (MIR, rustc_private driver; bodies normalised by helper inlining and combinator expansion)",
     "explanation": "The writers re-implement the vector headers by hand. Their element lists (terms pushed into the header vector) are "
                    "compared with the write sequence of RawVector/IntVector::serialize_header extracted for C06, the placeholder and final "
                    "headers must have equal length, `file = None` must be dominated by the success edges of flush(Final) and write_header, "
